@@ -123,6 +123,20 @@ func streamBCD(c *ctx) {
 		w.Emit("bcd-enc "+cases.Hex(db), bcdEnc(db), "enc/long-bad-near-end")
 		w.Emit("bcd-enc "+cases.Hex(ds), bcdEnc(ds), "enc/long-valid-after-failure")
 	}
+	// zero bytes at the even positions only, at the odd positions only (3-, 4- and 7-byte fields: times, dates, date-times)
+	for _, n := range []int{3, 4, 7} {
+		for _, v := range []byte{0x01, 0x30, 0x59, 0x99} {
+			for parity := 0; parity < 2; parity++ {
+				bs := make([]byte, n)
+				for j := range bs {
+					if j%2 == parity {
+						bs[j] = v
+					}
+				}
+				w.Emit("bcd-dec "+cases.Hex(bs), bcdDec(bs), "dec/zeroes-at-alternate-positions")
+			}
+		}
+	}
 	// long runs of non-digit characters, and very long digit strings
 	for _, n := range []int{255, 256, 257, 512, 513} {
 		for _, fill := range []byte{'x', ':', '/', ' '} {
